@@ -244,3 +244,16 @@ Theorem c17_eval_total : forall fuel wd fs main, (max_include_depth <= fuel)%nat
   has_out_of_fuel (mf_errors (load fuel wd fs main)) = false.
 Proof. exact eval_total. Qed.
 Print Assumptions c17_eval_total.
+
+(* ---------------------------------------------------------------- the model's "null node" outcome is unreachable *)
+
+(* Manifest::normalize_path succeeds on every path when the working directory is "/..." (not the //net form), so
+   findOrCreateNode never yields the null pointer the loader would store and dereference *)
+Theorem c17_normalize_path_some : forall wd p, simple_abs wd -> exists q, normalize_path wd p = Some q.
+Proof. exact normalize_path_some. Qed.
+Print Assumptions c17_normalize_path_some.
+
+Theorem c17_no_null_node : forall wd sc e, simple_abs wd -> e <> ENullNode ->
+  forall toks nodes, ~ In ENullNode (p_errs (eval_paths wd sc e toks nodes)).
+Proof. exact no_null_node. Qed.
+Print Assumptions c17_no_null_node.
